@@ -15,7 +15,8 @@ RULE = (
     "one payload / purge, let one event reach the controller, or return the arrived events). Oracle: every requested output equals "
     "the sequential reference evaluation. non-trivial = >=2 tasks, >=1 edge, a requested output that is not a source, and an "
     "inter-host transfer happened or >=2 workers ran tasks or a multi-output task was consumed; distinct = fingerprint of (case, "
-    "delivered-event trace)"
+    "delivered-event trace). Thorough tier additionally: 48 fault-free runs of the REAL cluster (harness.realcluster) with the same "
+    "value oracle"
 )
 ASSUMPTIONS = [
     "transport, the executor's forwarding loop, the data server and shared memory are simulated (FIFO per sender/receiver pair); the "
@@ -41,9 +42,62 @@ def _nt(c):
     return c["tasks"] >= 2 and c["edges"] >= 1 and c["ext_nonsource"] and (c["transfers"] > 0 or c["workers_ran"] >= 2 or c["multi_consumed"])
 
 
+def _real_body(stats):
+    """Thorough tier only: fault-free runs of the REAL cluster (processes, zmq over loopback, shm server, data server) with the same
+    value oracle -- sampled evidence that the simulated seams behave like the real ones."""
+    import os
+    import shutil
+    import tempfile
+
+    from .. import realcluster
+    from ..common import HarnessError, Violation
+    from ..genjob import build_job
+    from ..refeval import evaluate
+
+    n = [0]
+
+    def body(plan):
+        n[0] += 1
+        shard_i = int(os.environ.get("VERIF_SHARD", "0"))
+        tmp = tempfile.mkdtemp(prefix="verif-c01-")
+        p = dict(plan)
+        p.update({"port": 10000 + shard_i * 1300 + (n[0] % 12) * 100, "prefix": f"r{os.getpid() % 10000}x{n[0] % 1000}",
+                  "marker": os.path.join(tmp, "m"), "grace_s": 15, "fault": {"where": "none"}})
+        try:
+            out = realcluster.run_plan(p, 60)
+        finally:
+            shutil.rmtree(tmp, ignore_errors=True)
+        if out["verdict"] == "harness-error":
+            raise HarnessError(str(out.get("exc")))
+        if out["verdict"] != "returned":
+            raise Violation(f"real cluster {plan['hosts']}x{plan['workers']}: fault-free run ended as {out['verdict']}: {out.get('exc')}", "real-run-failed")
+        job = build_job(plan["job"])
+        ref = evaluate(job)
+        for ds in job.ext_outputs:
+            got = out.get("outputs", {}).get(repr(ds), "<missing>")
+            if got != ref[(ds.task, ds.output)]:
+                raise Violation(f"real cluster: {ds} = {got!r}, sequential evaluation gives {ref[(ds.task, ds.output)]!r}", "real-output-wrong")
+        return len(plan["job"]["tasks"]) >= 2, ["real_cluster_run"]
+
+    return body
+
+
 def shard(seed, cases, tier):
-    return simcheck.shard(FAMILY, _nt, seed, cases, tier)
+    st_ = simcheck.shard(FAMILY, _nt, seed, cases, tier)
+    if tier == "thorough" and not st_.violations:
+        from hypothesis import strategies as st
+
+        from .. import common
+        from ..genjob import job_specs
+
+        plans = st.builds(lambda j, h, w: {"job": j, "hosts": h, "workers": w}, job_specs(max_tasks=7, min_tasks=1, gpu=False, ext="any"),
+                          st.integers(1, 2), st.integers(1, 3))
+        common.hyp_run(plans, _real_body(st_), st_, seed + 13, 3, shrink=False)
+    return st_
 
 
 def replay(case):
+    if "hosts" in case and "workers" in case and "cluster" not in case:
+        _real_body(None)(case)
+        return
     simcheck.replay_case(FAMILY, case)
